@@ -5,7 +5,7 @@ From Coq Require Import String ZArith.
 From OCI Require Import Proofs.Scope Proofs.ScopeAlg Proofs.ScopeOps Proofs.ScopeEval.
 From OCI Require Export Base.Outcome Obs.AuthObs.
 From Coq Require Import Lia.
-From OCI Require Import Proofs.Challenge Proofs.AuthInv Proofs.AuthC11 Proofs.AuthC10 Proofs.AuthC10b.
+From OCI Require Import Proofs.Challenge Proofs.AuthInv Proofs.AuthC11 Proofs.AuthC10 Proofs.AuthC10b Proofs.AuthParse.
 
 (* side conditions of the C10 theorems, decided on the case: the scopes of every started call
    are the ones the harness built through the exported API (hence well formed), and every
@@ -58,7 +58,10 @@ Definition obs_ok (c : case) : bool :=
       let E := env_of r in
       let h := rev (c_trace r) in
       all_ok (evS1 E) h && all_ok (evS2 E) h && all_ok evS3 h
-  | CParse _ panicked _ => negb panicked
+  (* the parser called directly: it does not panic, and it hands out scheme and parameter names
+     in lower case whatever the header's spelling (they are case-insensitive, and the transport
+     looks up realm / service / scope in lower case) *)
+  | CParse _ panicked o => negb panicked && parsed_lower o
   end.
 
 (* a conversation exercises the property when a bearer token was presented or a token asked for *)
@@ -126,9 +129,11 @@ Proof.
     destruct (side_b_sides r Hr Hs) as [Hside Hside2].
     apply run_agrees_history in Hr as [Hh Hu]. cbn zeta. rewrite Hh.
     rewrite (S1_holds _ _ Hside), (S2_holds _ _ Hside2), (S3_holds _ _ Hside). reflexivity.
-  - unfold parse_agrees. destruct (parse_total hdr) as [res ->]. destruct res as [h|].
-    + intros H. now apply andb_true_iff in H as [H _].
-    + intros H. now apply andb_true_iff in H as [H _].
+  - unfold parse_agrees. destruct (parse_total hdr) as [res Hres]. rewrite Hres. destruct res as [h|].
+    + intros H. apply andb_true_iff in H as [H1 H2]. rewrite H1. cbn [andb].
+      destruct o as [[sch ps]|]; [|discriminate]. apply andb_true_iff in H2 as [Hs Hp].
+      unfold params_agree in Hp. apply andb_true_iff in Hp as [_ Hp]. eapply agree_parsed_lower; eauto.
+    + intros H. apply andb_true_iff in H as [H1 H2]. rewrite H1. destruct o; [discriminate | reflexivity].
 Qed.
 
 Definition mismatches (cs : list case) : list (N * bool) := mismatches_of model_agrees obs_ok cs.
